@@ -342,6 +342,10 @@ func VerifyPSS(pub *PublicKey, hash crypto.Hash, digest []byte, sig []byte, opts
 	// 	...
 	// 	return boring.VerifyRSAPSS(bkey, hash, digest, sig, opts.saltLength())
 	// }
+	// ZCrypto - see VerifyPKCS1v15: malformed public keys are an error, not a panic.
+	if err := checkPub(pub); err != nil {
+		return err
+	}
 	if len(sig) != pub.Size() {
 		return ErrVerification
 	}
